@@ -116,8 +116,11 @@ func (p *Parser) Parse() (al align.Alignment, err error) {
 		}
 
 		if tok == MARKUP {
-			for tok != ENDOFLINE {
+			for tok != ENDOFLINE && tok != EOF {
 				tok, _ = p.scanIgnoreWhitespace()
+			}
+			if tok == EOF {
+				break
 			}
 			continue
 		}
